@@ -889,6 +889,10 @@ class PteraTransformer(NodeTransformer):
             )
 
         for fv in sorted(self.free):
+            if not self.should_instrument(fv):
+                # Leave the closure variable as it is (it may not even be
+                # set yet)
+                continue
             new_body.extend(
                 self.make_interaction(
                     target=fv,
